@@ -16,3 +16,7 @@ func VerifHandleMessage(ctx context.Context, h Handler, dispatcher hwebsocket.Di
 	hh := handler{Handler: h, dispatcher: dispatcher}
 	return hh.handleMessage(ctx, msg, responder)
 }
+
+// VerifSetAppKey sets what HandleConnect would have taken from the access
+// token of the WebSocket request (the handler-level driver has no request).
+func VerifSetAppKey(h *RealtimeHandler, appKey string) { h.appKey = appKey }
